@@ -9,7 +9,8 @@ Import ListNotations.
 Local Open Scope nat_scope.
 
 (* ---------- deterministic symbolic execution (no backtracking over compound expressions) ---------- *)
-Ltac red_res := cbn [call_result seq_result rep_result reptail_result call_atomicity emits]; cbv beta iota.
+Ltac red_res := cbn [call_result seq_result rep_result reptail_result alt_result opt_result not_result and_result skip_result
+                        call_atomicity emits]; cbv beta iota.
 Ltac decide_eqb :=
   repeat match goal with
          | |- context [Nat.eqb ?x ?y] =>
@@ -40,7 +41,12 @@ Ltac pegd :=
           eapply runs_reptail; [pegd|red_res; pegd|red_res; decide_eqb; cbv beta iota; pegd]
       | |- Runs _ _ (ENot _) _ _ _ _ => eapply runs_not; pegd
       | |- Runs _ _ (EAnd _) _ _ _ _ => eapply runs_and; pegd
-      | |- Runs _ _ (ECall _) _ _ _ _ => eapply runs_call; [reflexivity|cbn [call_atomicity]; pegd]
+      | |- Runs _ _ (ECall ?r) _ _ _ _ =>
+          (* the rule body is supplied in normal form (the kernel would otherwise re-reduce the grammar at every step) *)
+          let kb := eval cbv in (rule_of r) in
+          lazymatch kb with
+          | (?k, ?b) => eapply (@runs_call _ grammar _ r k b); [reflexivity|cbn [call_atomicity]; pegd]
+          end
       end ].
 
 (* ---------- integers ---------- *)
@@ -196,6 +202,7 @@ Ltac bound :=
   repeat lazymatch goal with
          | |- Nat.max _ _ <= _ => apply Nat.max_lub
          | |- S _ <= S _ + _ => apply le_S_add
+         | |- S _ <= S _ => apply le_n_S
          end;
   lia.
 Ltac pegd_upto := eapply runs_conv; [pegd|bound|red_res; decide_eqb; cbv beta iota; res_eq].
